@@ -206,7 +206,7 @@ func wfRangeReq(o *ObjectRangeRequest) bool {
 
 //@ pred uploaderInv(u) = u != nil && u.buckets != nil && u.timeSource != nil && u.uploadID != nil &&
 //@   allstr(b, imp(has(u.buckets, b), u.buckets[b] != nil && u.buckets[b].uploads != nil && u.buckets[b].objectIndex != nil &&
-//@     allstr(i, imp(has(u.buckets[b].uploads, i), u.buckets[b].uploads[i] != nil))))
+//@     allstr(i, imp(has(u.buckets[b].uploads, i), u.buckets[b].uploads[i] != nil && u.buckets[b].uploads[i].Meta != nil))))
 
 //@ func (*uploader).getUnlocked
 //@ props C06 C14 C09
@@ -396,7 +396,7 @@ func wfRangeReq(o *ObjectRangeRequest) bool {
 //@ ensures            res:    imp(ret1 == nil, ret0 != nil && ret0.Contents != nil)
 //@ iface gofakes3.Backend.GetObject
 //@ requires [C11]     wf:     wfRangeReq(rangeRequest)
-//@ ensures            res:    imp(ret1 == nil && ret0 != nil, ret0.Contents != nil && ret0.Size >= 0)
+//@ ensures            res:    imp(ret1 == nil, ret0 != nil && ret0.Contents != nil && ret0.Size >= 0)
 //@ ensures [C11]      range:  imp(ret1 == nil && ret0 != nil && ret0.Range != nil, 0 <= ret0.Range.Start && 1 <= ret0.Range.Length &&
 //@                              ret0.Range.Start + ret0.Range.Length <= ret0.Size)
 //@ iface gofakes3.Backend.CreateBucket
@@ -412,6 +412,7 @@ func wfRangeReq(o *ObjectRangeRequest) bool {
 //@ iface gofakes3.Backend.DeleteMulti
 //@ modifies store_gen
 //@ iface gofakes3.Backend.CopyObject
+//@ requires           meta:   meta != nil
 //@ modifies store_gen
 //@ ensures [C08]      reject: imp(ret1 != nil, store_gen == old(store_gen))
 //@ iface gofakes3.VersionedBackend.VersioningConfiguration
@@ -420,6 +421,8 @@ func wfRangeReq(o *ObjectRangeRequest) bool {
 //@ iface gofakes3.VersionedBackend.GetObjectVersion
 //@ requires [C11]     wf:     wfRangeReq(rangeRequest)
 //@ ensures            res:    imp(ret1 == nil && ret0 != nil, ret0.Contents != nil && ret0.Size >= 0)
+//@ ensures [C11]      range:  imp(ret1 == nil && ret0 != nil && ret0.Range != nil, 0 <= ret0.Range.Start && 1 <= ret0.Range.Length &&
+//@                              ret0.Range.Start + ret0.Range.Length <= ret0.Size)
 //@ iface gofakes3.VersionedBackend.HeadObjectVersion
 //@ ensures            res:    imp(ret1 == nil && ret0 != nil, ret0.Contents != nil)
 //@ iface gofakes3.VersionedBackend.DeleteObjectVersion
@@ -434,6 +437,7 @@ func wfRangeReq(o *ObjectRangeRequest) bool {
 //@ iface gofakes3.errorResponse.enrich
 //@ modifies fieldof(ErrorResponse, RequestID), fieldof(resourceErrorResponse, ErrorResponse.RequestID), fieldof(requestTimeTooSkewedResponse, ErrorResponse.RequestID), fieldof(ErrorInvalidArgumentResponse, ErrorResponse.RequestID)
 //@ iface gofakes3.MultipartBackend.CreateMultipartUpload
+//@ requires           meta:   meta != nil
 //@ iface gofakes3.MultipartBackend.UploadPart
 //@ requires [C06,C14] pn:     partNumber >= 1
 //@ requires           input:  input != nil
@@ -664,13 +668,14 @@ func wfRangeReq(o *ObjectRangeRequest) bool {
 //@ props C01 C09
 //@ requires           args:   db != nil && meta != nil
 //@ ensures [C01]      keep:   allstr(k, imp(old(has(meta, k)), has(meta, k) && meta[k] == old(meta[k])))
+//@ ensures            err:    imp(ret0 != nil, unchanged())
 //@ modifies meta[:]
 
 //@ func CopyObject
 //@ props C02 C01 C08 C09
-//@ requires           args:   db != nil
+//@ requires           args:   db != nil && meta != nil
 //@ ensures [C08]      reject: imp(err != nil, store_gen == old(store_gen))
-//@ modifies store_gen, put_count, put_bucket, put_key, put_meta, put_size, put_input
+//@ modifies store_gen, put_count, put_bucket, put_key, put_meta, put_size, put_input, rd_pos
 
 //@ func (MFADeleteStatus).Enabled
 //@ props C05
